@@ -346,6 +346,9 @@ def free_ids(term):
             yield t[1]
 
 
+CONTEXT_ARG = {"WRITE_REG": "bundle", "READ_REG": "pkt", "ISA2REG": "hi", "ISA2IMM": "hi", "NREG2OP": "bundle"}
+
+
 def check_c_body(body, params=()):
     """declared-before-use, declared-once, identifier syntax; returns list of (kind, msg)"""
     issues = []
@@ -363,6 +366,20 @@ def check_c_body(body, params=()):
     for n in free_ids(body.ret):
         if n not in declared and n not in PLUGIN_IDS and not n.startswith(PLUGIN_PREFIXES):
             issues.append(("undeclared-identifier", f"{n} used in return"))
+    # plugin functions take their context object first: hex_write_reg(HexInsnPktBundle *), hex_read_reg(HexPkt *),
+    # ISA2REG/ISA2IMM(HexInsn *), NREG2OP(HexInsnPktBundle *) - a different variable there is a C type error
+    def calls(t):
+        if isinstance(t, tuple) and t and t[0] == "call":
+            yield t
+        if isinstance(t, (tuple, list)):
+            for x in t:
+                if isinstance(x, (tuple, list)):
+                    yield from calls(x)
+    for d in body.decls:
+        for c in calls(d.term):
+            want = CONTEXT_ARG.get(c[1])
+            if want and (not c[2] or c[2][0] != ("id", want)):
+                issues.append(("plugin-call-context", f"{c[1]} gets {c[2][0] if c[2] else None} instead of {want} in {d.name}"))
     # balanced parentheses of the raw text (the reader would have failed otherwise, but check the raw text too)
     depth = 0
     code = "\n".join(l for l in body.text.split("\n") if not l.strip().startswith("//"))
